@@ -1,4 +1,4 @@
-from contracts import errs, exitcode, unused_ign
+from contracts import errs, exitcode, unused_ign, dedup
 
 def build(tier):
-    return dict(targets=errs.targets_c13(tier) + exitcode.targets(tier) + unused_ign.targets(tier), assumptions=[], trusted_base=[])
+    return dict(targets=errs.targets_c13(tier) + exitcode.targets(tier) + unused_ign.targets(tier) + dedup.targets(tier), assumptions=[], trusted_base=[])
